@@ -153,6 +153,11 @@ func DoLoad(req *LoadReq) (resp LoadResp) {
 	case "grl":
 		lib := ast.NewKnowledgeLibrary()
 		err = builder.NewRuleBuilder(lib).BuildRuleFromResource("KB", "1", pkg.NewReaderResource(rd))
+		if err != nil {
+			// the loader must also survive what a rejected input leaves behind: a further, valid
+			// text offered to the same knowledge base returns a value or an error like any other
+			_ = builder.NewRuleBuilder(lib).BuildRuleFromResource("KB", "1", pkg.NewBytesResource([]byte(followUpGRL)))
+		}
 	case "jsonrule":
 		var res pkg.Resource
 		res, err = pkg.NewJSONResourceFromResource(pkg.NewReaderResource(rd))
@@ -184,6 +189,8 @@ func DoLoad(req *LoadReq) (resp LoadResp) {
 	}
 	return resp
 }
+
+const followUpGRL = `rule FollowUp "loaded after a rejected text" salience 1 { when F.I == 1 then F.I = 2; Retract("FollowUp"); }`
 
 // ChildMain is the loop of the loader child: length-prefixed JSON requests on stdin, one JSON
 // line per answer on stdout.
